@@ -197,18 +197,23 @@ func LoadProgram(repo string) (*Program, error) {
 var reFuncHdr = regexp.MustCompile(`^func\s+(?:\(\s*(?:\w+\s+)?\*?(\w+)\s*\)\s*)?(\w+)\s*$`)
 
 func (p *Program) readContracts(pkg *packages.Package) error {
-	var file *ast.File
-	var fname string
 	for i, f := range pkg.Syntax {
 		name := pkg.CompiledGoFiles[i]
-		if filepath.Base(name) == "verif_contracts.go" {
-			file = f
-			fname = name
+		if isContractFile(name) {
+			if err := p.readContractFile(pkg, f, name); err != nil {
+				return err
+			}
 		}
 	}
-	if file == nil {
-		return nil
-	}
+	return nil
+}
+
+func isContractFile(name string) bool {
+	b := filepath.Base(name)
+	return strings.HasPrefix(b, "verif_contracts") && strings.HasSuffix(b, ".go")
+}
+
+func (p *Program) readContractFile(pkg *packages.Package, file *ast.File, fname string) error {
 	var cur *Contract
 	flush := func() {}
 	_ = flush
@@ -686,6 +691,11 @@ func desugarImplies(s string) string {
 func (p *Program) contractFilePos(pkg *packages.Package) token.Pos {
 	for i, f := range pkg.Syntax {
 		if filepath.Base(pkg.CompiledGoFiles[i]) == "verif_contracts.go" {
+			return f.Name.End()
+		}
+	}
+	for i, f := range pkg.Syntax {
+		if isContractFile(pkg.CompiledGoFiles[i]) {
 			return f.Name.End()
 		}
 	}
